@@ -170,7 +170,7 @@ def interpolant(repo, rep, tier):
             outs, _ = symx.eval_function(repo, MOD, CLS + ".__call__", arg_terms={"self": T.sym("self"), fc.args.args[1].arg: X}, extra_env=dict(env), unroll=12)
             fd = repo.func(MOD, CLS + ".derivative")
             douts, _ = symx.eval_function(repo, MOD, CLS + ".derivative", arg_terms={"self": T.sym("self"), fd.args.args[1].arg: X}, extra_env=dict(env), unroll=12)
-        except (AnalysisError, symx.Unsupported, RecursionError) as e:
+        except (AnalysisError, RecursionError) as e:
             rep.inconcl("R-INTERPOLANT", site, "n=%d: not executable symbolically: %s" % (n, str(e)[:160]))
             return
         rets = [o for o in outs if o.kind == "ret"]
